@@ -547,6 +547,13 @@ private:
                     more_ = false;
                     return;
                 }
+                if (!is_number(data.data(), data.size()))
+                {
+                    // the payload of a high-precision number is a number in the JSON syntax
+                    ec = ubjson_errc::invalid_number;
+                    more_ = false;
+                    return;
+                }
                 if (jsoncons::is_base10(data.data(), data.size()))
                 {
                     visitor.string_value(jsoncons::string_view(reinterpret_cast<const char*>(data.data()), data.size()), 
@@ -784,6 +791,48 @@ private:
             more_ = false;
         }
         state_stack_.pop_back();
+    }
+
+    // [ minus ] int [ frac ] [ exp ] as in RFC 8259, section 6
+    template <typename CharT>
+    static bool is_number(const CharT* s, std::size_t length)
+    {
+        const CharT* end = s + length;
+        auto digits = [&]() {const CharT* first = s; while (s < end && *s >= '0' && *s <= '9') {++s;} return s != first;};
+
+        if (s < end && *s == '-')
+        {
+            ++s;
+        }
+        if (s < end && *s == '0')
+        {
+            ++s;
+        }
+        else if (!digits())
+        {
+            return false;
+        }
+        if (s < end && *s == '.')
+        {
+            ++s;
+            if (!digits())
+            {
+                return false;
+            }
+        }
+        if (s < end && (*s == 'e' || *s == 'E'))
+        {
+            ++s;
+            if (s < end && (*s == '+' || *s == '-'))
+            {
+                ++s;
+            }
+            if (!digits())
+            {
+                return false;
+            }
+        }
+        return s == end;
     }
 
     std::size_t get_length(std::error_code& ec)
